@@ -355,6 +355,9 @@ def _c13(tier):
         dict(name='box-far-from-base', leg='swarm', units=U(tier, 100), opts=dict(per_unit=8, oracles=['insitu'], probes=('c13',), salt='farbase', mutate=_far_from_base, profile=P(
             p_bounds=1.0, p_onesided=0.3, p_scaling=0.0, p_diag=1.0, p_restarts=0.4, p_growing=0.0, x_scales=[1e3, 1e3, 10.0], maxfun_choices=[25, 40, 60, 100],
             p_buggify=0.0, p_explicit_rhobeg=0.0))),
+        # regulariser + internal scaling: h must be evaluated at the un-scaled trial point (seeded change C13d)
+        dict(name='regularised-scaled', leg='swarm', units=U(tier, 110), opts=dict(per_unit=1, oracles=['insitu'], probes=('c13',), salt='regscaled', profile=P(
+            p_reg=1.0, p_bounds=1.0, p_onesided=0.0, p_scaling=1.0, p_sets=0.0, p_restarts=0.3, p_growing=0.0, maxfun_choices=[25, 40, 60]))),
     ]
 
 
